@@ -202,6 +202,8 @@ class Enc:
             elif k == "inject":
                 if e[1] == "release":
                     evs.append("EvRelease %d" % e[2])
+            elif k == "resume_task":
+                evs.append("EvResumeTask")
             elif k == "cache_done":
                 evs.append("EvCacheDone")
             elif k == "status_done":
@@ -212,9 +214,13 @@ class Enc:
             if k == "main":
                 continue
             if k == "msg":
-                obs.append("OMsg %d" % o[1])
-            elif k == "emsg":
-                obs.append("OEMsg %s" % self.cmd(o[1]))
+                obs.append("OMsg %s" % self.msg(o[2], o[1]))
+            elif k == "resp":
+                v = o[1]
+                if isinstance(v, list) and v and v[0] == "exn":
+                    obs.append("OResp (RExn %s)" % exn(v[1]))
+                else:
+                    obs.append("OResp (RVal %s)" % self.val(v))
             elif k == "state":
                 obs.append("OState %s %s" % (STATE[o[1]], STATE[o[2]]))
             elif k == "task":
@@ -265,7 +271,7 @@ class Enc:
                     oo = "OutInterrupted"
                 else:
                     oo = "(OutRaise %s)" % exn(o[3])
-                obs.append("OOut %s %s %s" % (oo, STATE[o[-2]], cb(o[-1])))
+                obs.append("OOut %s %s %s %s" % (oo, STATE[o[-3]], cb(o[-2]), cb(o[-1])))
             else:
                 raise Unsupported("observation " + k)
         devs = self.case.get("devs", [["stage"], [], ["pause"]])
